@@ -19,7 +19,7 @@ import (
 func init() {
 	register(&Check{
 		ID: "C18", Level: "model_checking", QuickSecs: 170, ThoroughSecs: 1500,
-		Rule:        "Controlled scheduler over real goroutines calling Parse on ONE loaded grammar of one runtime variant package. Scenarios (each forces a collision on something shared): s1 state grammar backtracking over #{} with different inputs; s2 the same with a Cloner value in InitState on one side; s3 Memoize(true) next to default options; s4 left-recursive grammar with state (leader loop clones per iteration); s5 Statistics/Debug on one side; s6 different Entrypoints; s7 a block that panics under Recover(true) while cloned states are held; s8 three concurrent calls. Mode A: scheduling points at every state-pool Get/Put and every code block call, environment choice at Get (any pooled map, or a fresh one) - explored WITHOUT a preemption bound using state-key pruning (key = step counter of every thread + number of pooled maps); the three-call scenario has deviation bound 3 in the quick tier. Mode B: additionally a scheduling point at every tick (entry of every parser method and every loop iteration) - plain DFS with iterative preemption bound 0,1,(2). Every execution starts cold (all package-level variables of the runtime re-initialised). Oracle on every execution: each call's observation (value, errors, block log with state snapshots) equals the observation of the same call run alone; pool discipline monitor silent (no map Put twice, none non-empty from Get); deep dump of the grammar value g identical before and after. A free-running pass of the same scenarios with the real sync.Pool under the Go race detector (sampling, supporting evidence only) must report no race.",
+		Rule:        "Controlled scheduler over real goroutines calling Parse on ONE loaded grammar of one runtime variant package. Scenarios (each forces a collision on something shared): s1 state grammar backtracking over #{} with different inputs; s2 the same with a Cloner value in InitState on one side; s3 Memoize(true) next to default options; s4 left-recursive grammar with state (leader loop clones per iteration); s5 Statistics/Debug on one side; s6 different Entrypoints; s7 a block that panics under Recover(true) while cloned states are held; s8 three concurrent calls; s9 Statistics on both sides with a recovery-side choice reached by throws from two rules. Mode A: scheduling points at every state-pool Get/Put and every code block call, environment choice at Get (any pooled map, or a fresh one) - explored WITHOUT a preemption bound using state-key pruning (key = step counter of every thread + number of pooled maps); the three-call scenario has deviation bound 3 in the quick tier. Mode B: additionally a scheduling point at every tick (entry of every parser method and every loop iteration) - plain DFS with iterative preemption bound 0,1,(2). Every execution starts cold (all package-level variables of the runtime re-initialised). Oracle on every execution: each call's observation (value, errors, block log with state snapshots) equals the observation of the same call run alone; pool discipline monitor silent (no map Put twice, none non-empty from Get); deep dump of the grammar value g identical before and after. A free-running pass of the same scenarios with the real sync.Pool under the Go race detector (sampling, supporting evidence only) must report no race.",
 		Assumptions: []string{"goroutines are serialised at hooked operations; memory-model effects between hooks are only covered by the free-running -race pass", "pruning key soundness: pooled maps are empty and unreferenced while the discipline monitor is silent"},
 		Run:         runC18,
 		Post:        postC18,
@@ -76,6 +76,13 @@ func scenarios() []scenario {
 	out = append(out, scenario{"s6-entrypoints", g1, core.Gen{}, script(g1, 0), []call{{"aab", rtapi.RunOpts{Entrypoint: strp("T"), InitState: true}}, {"ab", rtapi.RunOpts{}}}})
 	g7 := prep(stateG())
 	out = append(out, scenario{"s7-panic-while-states-held", g7, core.Gen{}, script(g7, 3), []call{{"aab", rtapi.RunOpts{InitState: true}}, {"ab", rtapi.RunOpts{InitState: true}}}})
+	// s9: Statistics on both sides, a recovery expression with an inline choice reached by
+	// throws from two different rules (the statistics key of that choice names the throwing rule)
+	g9 := prep(&peg.Grammar{Rules: []*peg.Rule{
+		{Name: "S", Expr: peg.Recover(peg.Plus(peg.Choice(peg.Ref("A"), peg.Ref("B"))), peg.Choice(peg.Lit("a"), peg.Lit("b"), peg.Seq(peg.StateCode(0), peg.Any())), "l")},
+		{Name: "A", Expr: peg.Seq(peg.Lit("x"), peg.Choice(peg.Lit("!"), peg.Throw("l")))},
+		{Name: "B", Expr: peg.Seq(peg.Lit("y"), peg.Choice(peg.Lit("?"), peg.Throw("l")))}}})
+	out = append(out, scenario{"s9-statistics-recovery-choice", g9, core.Gen{}, script(g9, 0), []call{{"xay!", rtapi.RunOpts{Statistics: true}}, {"ybx!", rtapi.RunOpts{Statistics: true, InitState: true}}}})
 	out = append(out, scenario{"s8-three-calls", g1, core.Gen{}, script(g1, 0), []call{{"a", rtapi.RunOpts{InitState: true}}, {"b", rtapi.RunOpts{}}, {"", rtapi.RunOpts{InitState: true}}}})
 	return out
 }
